@@ -26,16 +26,30 @@ func (x *lncExpect) check(what string, ok bool) bool {
 	return ok
 }
 
-// connect dials and waits for the listener's connection; both secured.
+// connect dials and waits for the listener's connection, both secured.  Like
+// gRPC it tries again when a connection dies during its handshake (a repeated
+// GBN SYN that reaches an endpoint already in its data phase ends that
+// connection: the next attempt succeeds); what is expected is a working
+// connection within a few attempts.
 func (x *lncExpect) connect(k int) (*lncrun.Conn, *lncrun.Conn) {
-	c := x.s.Dial("c", k)
+	var c *lncrun.Conn
+	for attempt := 0; attempt < 4; attempt++ {
+		c = x.s.Dial("c", k*10+attempt)
+		if c != nil && c.Sec != nil {
+			break
+		}
+		if c == nil {
+			break // Dial itself never returned
+		}
+		c.AwaitDown(10 * time.Second)
+	}
 	if !x.check("dial returns a working connection", c != nil && c.Sec != nil) {
 		return nil, nil
 	}
 	var sc *lncrun.Conn
 	for {
 		sc = x.s.Accepted()
-		if sc == nil || sc.Sec != nil {
+		if sc == nil || (sc.Sec != nil && sc.PeerID(20*time.Second) == c.ID) {
 			break
 		}
 	}
@@ -146,12 +160,35 @@ func c11Scenarios() []lncScen {
 			var sc2 *lncrun.Conn
 			for {
 				sc2 = s.Accepted()
-				if sc2 == nil || (sc2.Sec != nil && sc2 != sc) {
+				if sc2 == nil || (sc2.Sec != nil && c2 != nil && sc2.PeerID(20*time.Second) == c2.ID) {
 					break
 				}
 			}
 			if c2 != nil && c2.Sec != nil && x.check("accept returns a working connection", sc2 != nil) {
 				x.exchange(c2, sc2, 100)
+			}
+		}},
+		{"reader-stops-mid-record", lncrun.Options{PrePaired: true}, func(s *lncrun.Session, x *lncExpect) {
+			// the client's reader stops (as after a protocol error) when it
+			// has been handed only part of a large record; the connection is
+			// closed and a new one made: it must start with the new stream
+			s.Serve()
+			c, sc := x.connect(1)
+			if c == nil {
+				return
+			}
+			c.StopReaderAfter(1)
+			if err := sc.Write(65535); err != nil {
+				x.check("write on an open connection succeeds", false)
+				return
+			}
+			x.check("bytes written arrive", c.AwaitRead(1, 30*time.Second))
+			time.Sleep(500 * time.Millisecond)
+			c.Close("script")
+			x.check("the peer of a closed connection goes down", sc.AwaitDown(30*time.Second))
+			c2, sc2 := x.connect(2)
+			if c2 != nil {
+				x.exchange(c2, sc2, 100, 40000)
 			}
 		}},
 		{"relay-failure", lncrun.Options{PrePaired: true}, func(s *lncrun.Session, x *lncExpect) {
